@@ -23,6 +23,9 @@ CHECKS = {
  "C06": ("fault_enumeration", "fault enumeration: every fault kind at every position behind every valid script prefix (bounded-exhaustive) + proptest prefixes; oracle over the peer's event log",
          "For all 17 sequences, every valid reply prefix up to depth 4 (thorough 5) is followed by each fault (4 NACK codes, packets outside the reply set, undecodable bodies inside it, truncated packets followed by end of stream, end of stream) at the acknowledgement position or instead of the next reply: exactly one Err after the Ok items, then None twice without I/O, and no byte written after the faulty bytes were released.",
          "Trusted: the fault model of Appendix C; malformed bodies are those both the reference decoder and the packet's own decoder reject.", "7/C06"),
+ "C10": ("fault_enumeration", "fault enumeration on virtual time: a stall at every packet position of every exchange (from a dry-run transcript), exhaustive read_card_timeout 0..255, proptest-sampled configurations; watchdog oracle in tokio paused time",
+         "The real Feig client runs against an in-process simulated terminal on tokio's paused clock (hook zvt_verif). For each of the six public operations a fault-free dry run yields the packet positions of all its exchanges, handshake included; a stall (silence / header then silence, once / on every attempt) is injected at each, plus stalls in the handshake of a forced reconnect and in connect(). The call must return without panicking within S(op)*20*(T+2) virtual seconds under a one-virtual-day watchdog; read_card_timeout is enumerated 0..255 including a terminal that answers t+1 s after its ack (no collapse).",
+         "Trusted: tokio's paused clock and in-memory duplex streams stand in for the network; the simulated terminal (harness/src/sim.rs). A terminal trickling packets below the per-packet time-out is outside the property.", "7/C10"),
  "C11": ("exploration", "proptest generation of payload directories, block sizes and request scripts; the real upload stream runs against a scripted peer over real temporary files; reference codec decodes the client's packets",
          "Generated directories (subsets of the 21 recognised paths plus unrelated files, sizes around 0 / block / k*block, random content), block sizes 1..32768 and request scripts (announced / unannounced ids, offsets at, before and after end of file and beyond 2^31, missing fields) drive the real WriteFile stream: the announcement must list exactly the recognised files with their true sizes and the password, every good request must be answered once with its id, offset and the bit-identical file slice, a bad request must end the upload with one error and no data.",
          "Trusted: own copy of the 21-entry file-id table; reference codec for feig.WriteFile / WriteData / RequestForData; files live in a per-case temporary directory.", "7/C11"),
